@@ -8,7 +8,7 @@ import ast
 
 from .. import e1
 from ..astx import self_attr, walk_no_nested, dotted, call_name, terminates, dominating_conditions, flatten_conditions, \
-    decorator_names, parent
+    decorator_names, parent, func_params
 from ..callgraph import CallGraph, diff_entries
 from ..core import norm
 from .c03 import roots_and_consts
@@ -137,7 +137,7 @@ def r04c(ctx):
                 elif not defs:
                     why = f"`{base.id}` has no local definition"
                 else:
-                    bad = [d for d in defs if not _fresh_range(d.value)]
+                    bad = [d for d in defs if not _fresh_range(d.value, m, f.cls)]
                     ok = not bad
                     if bad:
                         why = f"`{base.id}` is assigned from `{norm(bad[0].value, 50)}`, which may be a shared interval"
@@ -152,10 +152,30 @@ def r04c(ctx):
     ctx.floor("R04c", n, 2, "stores to .lower_bound/.upper_bound outside Range.__init__")
 
 
-def _fresh_range(v):
+def _fresh_range(v, m=None, cls=None, depth=0):
     if isinstance(v, ast.Call):
         nm = call_name(v) or ""
-        return nm.split(".")[-1] == "Range" or nm == "sum"
+        if nm.split(".")[-1] == "Range" or nm == "sum":
+            return True
+        # a same-class helper every return of which hands out an interval that is fresh in the helper
+        if m is not None and cls and depth < 2 and self_attr(v.func) and not v.args:
+            h = m.method(cls, self_attr(v.func))
+            if h is None or h.node.name == "bounds":
+                return False
+            rets = [r for r in walk_no_nested(h.node) if isinstance(r, ast.Return)]
+            if not rets or any(r.value is None for r in rets):
+                return False
+            for r in rets:
+                rv = r.value
+                if isinstance(rv, ast.Name):
+                    defs = [s for s in walk_no_nested(h.node) if isinstance(s, (ast.Assign, ast.AnnAssign)) and s.value is not None
+                            and any(isinstance(t, ast.Name) and t.id == rv.id for t in (s.targets if isinstance(s, ast.Assign) else [s.target]))]
+                    if not defs or rv.id in func_params(h.node) or not all(_fresh_range(d.value, m, cls, depth + 1) for d in defs):
+                        return False
+                elif not _fresh_range(rv, m, cls, depth + 1):
+                    return False
+            return True
+        return False
     if isinstance(v, ast.BinOp) and isinstance(v.op, (ast.Add, ast.Sub)):
         return True
     return False
@@ -341,7 +361,8 @@ def r04h(ctx):
                 from ..astx import resolve_local
                 vals = r.value.values if isinstance(r.value, ast.BoolOp) and isinstance(r.value.op, ast.Or) else []
                 from ..astx import inline_self_call
-                vals = [inline_self_call(m, q, resolve_local(tb.node, v)) for v in vals]
+                from ..astx import inline_call
+                vals = [inline_call(m, q, tb.node, v) for v in vals]
                 ok = any(any(isinstance(c_, ast.Compare) and any(e in ast.unparse(c_) for e in entry) for c_ in ast.walk(v)) for v in vals)
                 if ok:
                     ctx.proved("R04h", tb.file, "EditDistance.tighten_bounds", r, "completion reports progress",
